@@ -218,6 +218,24 @@ func (c *itemCtx) classifyError(fc *filterCase, ex *expectation, err error) *fin
 			}
 		}
 	}
+	if errors.Is(err, bufimageutil.ErrImageFilterTypeIsImport) {
+		// ex.MustFail is empty here: no included element lives in an import file and every included
+		// package has a target file (or imported types are allowed), so the contract has no reason
+		// to reject the filter as "import".
+		role := "element-of-target-file"
+		for _, n := range fc.Include {
+			if fs, isPkg := m.Pkgs[n]; isPkg {
+				if _, isEl := m.El[n]; !isEl && strings.HasPrefix(pkgShape(fs), "mixed") {
+					role = "package-with-target-and-import-files"
+				}
+			}
+		}
+		if fc.AllowImported {
+			role = "imported-types-allowed"
+		}
+		return &finding{"no-error/is-import/" + role,
+			fmt.Sprintf("the filter includes only names that exist outside import files (a package counts as imported only when ALL of its files are imports), but FilterImage rejects it as import: %v", err)}
+	}
 	return &finding{"no-error/other/" + normErr(err), fmt.Sprintf("filter of existing, non-contradictory names failed: %v", err)}
 }
 
@@ -278,6 +296,9 @@ func (c *itemCtx) evalWith(fc *filterCase, ex *expectation) (*finding, bufimage.
 			if !errors.Is(err, want) {
 				// another legitimate reason may be reported first only if there is one; there is none here
 				return &finding{"error-kind/" + ex.MustFail + "/" + normErr(err), fmt.Sprintf("expected an error wrapping %q, got: %v", want, err)}, nil, err
+			}
+			if ex.MustFail == "is-import" && len(ex.PkgShapes) > 0 {
+				st.inc("include_package_all-import_rejected_cases")
 			}
 		}
 		return nil, nil, err
@@ -403,6 +424,13 @@ func (c *itemCtx) evalWith(fc *filterCase, ex *expectation) (*finding, bufimage.
 	for sh := range ex.L.AnyShapes {
 		// non-vacuity of the Any clause per type URL shape: the payload was demanded and found
 		st.inc("any_payload_url_" + sh + "_cases")
+	}
+	if !fc.AllowImported {
+		// non-vacuity of "an included package fails as import only if ALL its files are imports":
+		// the package was accepted without WithAllowIncludeOfImportedType and its content delivered
+		for _, sh := range ex.PkgShapes {
+			st.inc("include_package_" + sh + "_accepted_cases")
+		}
 	}
 	if ex.Exact {
 		st.inc("closure_exact_cases")
@@ -956,7 +984,8 @@ func run(r *evid.Run) {
 		r.Set(k, v)
 	}
 	for _, clause := range []string{"clause_links_checked", "clause_closure_checked", "clause_no_excluded_checked", "clause_unchanged_checked", "clause_comments_checked", "clause_no_error_checked", "clause_idempotence_checked", "clause_in_place_compared", "clause_contradictory_filter_rejected", "clause_must_fail", "member_fields_dropped_cases", "oneofs_dropped_cases", "shell_cases", "dependency_lists_rewritten", "locations_moved",
-		"any_payload_url_default_cases", "any_payload_url_single-segment_cases", "any_payload_url_path_cases", "any_payload_url_scheme_cases", "any_payload_url_empty-host_cases"} {
+		"any_payload_url_default_cases", "any_payload_url_single-segment_cases", "any_payload_url_path_cases", "any_payload_url_scheme_cases", "any_payload_url_empty-host_cases",
+		"include_package_all-target_accepted_cases", "include_package_mixed-import-first-and-last_accepted_cases", "include_package_mixed-import-last_accepted_cases", "include_package_all-import_rejected_cases"} {
 		if total[clause] == 0 && !r.Expired() {
 			r.Incomplete("clause never exercised: " + clause)
 		}
